@@ -320,6 +320,76 @@ def contained(merged, ref):
     return merged == ref
 
 
+FRAGARG_SDL = """
+type Query { friends: [P] me: P greet(who: String = "dflt"): String }
+type P { greet(who: String = "dflt", n: Int): String id: ID friends: [P] best: P }
+"""
+FRAGARG_DOCS = [
+    ('query { ...F(who: "bob") } fragment F($who: String) on Query { friends @stream(initialCount: 1) { greet(who: $who) } }', {}),
+    ('query ($w: String) { ...F(who: $w) } fragment F($who: String = "fd") on Query { friends @stream(initialCount: 0) { greet(who: $who) id } }', {"w": "ann"}),
+    ('query ($w: String) { ...F(who: $w) } fragment F($who: String = "fd") on Query { friends @stream(initialCount: 2) { greet(who: $who) } }', {}),
+    ('query { me { ...G(who: "x", n: 3) @defer(label: "d") id } } fragment G($who: String, $n: Int) on P { greet(who: $who, n: $n) best { greet(who: $who) } }', {}),
+    ('query { me { ...G(who: "x") } } fragment G($who: String) on P { id ... @defer { greet(who: $who) friends @stream(initialCount: 1) { greet(who: $who) } } }', {}),
+    ('query { ...F(who: "a") ...H(who: "b") } fragment F($who: String) on Query { friends @stream(initialCount: 1) { a: greet(who: $who) } } '
+     'fragment H($who: String) on Query { me { ... @defer { b: greet(who: $who) } } }', {}),
+    ('query ($who: String = "op") { ...F me { greet(who: $who) } } fragment F($who: String) on Query { friends @stream(initialCount: 1) { greet(who: $who) ...K(who: "inner") } } '
+     'fragment K($who: String) on P { best { ... @defer { greet(who: $who) } } }', {}),
+]
+
+
+def fragment_arguments_family(ck):
+    """@defer/@stream inside fragments with (experimental) fragment arguments: the reassembled incremental result must be
+    the result of the same request without the directives (the arguments of deferred/streamed fields see the same
+    fragment variable values)."""
+    import asyncio
+    from graphql import build_schema, execute_sync, parse
+    from graphql.execution import experimental_execute_incrementally
+
+    class P:
+        def __init__(self, i, depth=2):
+            self.id = str(i)
+            self._d = depth
+
+        def greet(self, _info, who="dflt", n=None):
+            return f"hi {who}/{n}/{self.id}"
+
+        def friends(self, _info):
+            return [P(f"{self.id}.{k}", self._d - 1) for k in range(3)] if self._d > 0 else []
+
+        def best(self, _info):
+            return P(self.id + ".b", self._d - 1) if self._d > 0 else None
+    schema = build_schema(FRAGARG_SDL)
+    root = {"friends": [P(0), P(1), P(2), P(3)], "me": P(9), "greet": lambda _i, who="dflt": f"root {who}"}
+    for text, variables in FRAGARG_DOCS:
+        doc = parse(text, experimental_fragment_arguments=True)
+        ref = execute_sync(schema, strip_directives(doc), root, variable_values=variables)
+        for early in (False, True):
+            async def run_one():
+                r = experimental_execute_incrementally(schema, doc, root, variable_values=variables,
+                                                       enable_early_execution=early)
+                if asyncio.iscoroutine(r) or asyncio.isfuture(r):
+                    r = await r
+                if not hasattr(r, "initial_result"):
+                    return r.formatted, []
+                return r.initial_result.formatted, [p.formatted async for p in r.subsequent_results]
+            loop = asyncio.new_event_loop()
+            try:
+                initial, payloads = loop.run_until_complete(asyncio.wait_for(run_one(), 10))
+                merged, problems, _pending = py_merge(initial, payloads)
+            except Exception as e:  # noqa: BLE001
+                merged, problems = None, [f"raised {type(e).__name__}: {e}"[:200]]
+            finally:
+                loop.close()
+            ck.evaluations += 1
+            ck.note_case(("fragarg", text, early), nontrivial=True)
+            if problems or merged != ref.data or ref.errors:
+                ck.violation(f"fragment-arguments:{text!r}:early={early}",
+                             f"with fragment arguments the reassembled incremental result differs from the execution without "
+                             f"@defer/@stream: {problems[:2] or ''} merged {merged!r:.200} reference {ref.data!r:.200}",
+                             {"relation": "merge(incremental) = non-incremental execution", "document": text,
+                              "variables": variables, "early": early, "impl": repr(merged)[:600], "model": repr(ref.data)[:600]})
+
+
 def run(tier):
     from graphql import build_schema, execute_sync, parse
     from graphql.execution import experimental_execute_incrementally, ExecutionResult
@@ -554,6 +624,7 @@ def run(tier):
     cdefer.core(ck, tier, br.ok)
     ck.extra["defer_rule"] = ck.rule
     ck.rule = rule0 + " (defer model) see coverage.defer_rule"
+    fragment_arguments_family(ck)
     return ck.finish()
 
 
